@@ -277,6 +277,35 @@ pub fn run(
                 _ => None,
             })
             .collect();
+        // parking_lot's RwLock prefers writers: once a writer waits for a read-held lock, a new
+        // (non-recursive) `read()` queues behind it. Grants stay permissive (a reader may still be
+        // scheduled first: it arrived before the writer), but a state in which every thread is blocked
+        // *when the pending writers are taken to have arrived first* is a feasible real deadlock
+        // (e.g. a recursive read while a writer waits). DashMap's shard locks let readers barge and
+        // are excluded.
+        let wp_blocked = |w: &Want| -> bool {
+            if !w.grantable() {
+                return true;
+            }
+            if let Want::Read(a) = *w {
+                if tag_of(a) == Some("shard") {
+                    return false;
+                }
+                let read_held = unsafe { (*(a as *const RawRwLock)).is_read_held() };
+                return read_held
+                    && status
+                        .iter()
+                        .any(|s| matches!(s, Status::Waiting(Want::Write(b)) if *b == a));
+            }
+            false
+        };
+        let wp_deadlock = !enabled.is_empty()
+            && status.iter().all(|s| match s {
+                Status::Waiting(w) => wp_blocked(w),
+                Status::Done | Status::Panicked(_) => true,
+                Status::Running => false,
+            });
+        let enabled: Vec<usize> = if wp_deadlock { Vec::new() } else { enabled };
         let view = View {
             step: steps,
             status: status.clone(),
